@@ -25,7 +25,7 @@ var twoEstablished = []Event{
 
 const commonAssume1 = "intra-process goroutine interleavings finer than one quiescence step (and Go's choice among simultaneously ready select cases) are not owned by the harness; every observed execution is still a real one"
 const commonAssume2 = "bounds: receive window, stream count, bytes per stream and history length as stated in the rule; heartbeats disabled; the carrier is reliable and ordered and (unless stated) never blocks a Write"
-const commonAssume3 = "at most one Read and one Write outstanding per stream side at a time (other calls may overlap them)"
+const commonAssume3 = "at most one Read and one Write outstanding per stream side at a time (two each in the C25 blocked-calls configuration); other calls may overlap them"
 
 func c23Configs() []*Config {
 	base := Config{W: 2, WriteBuffers: 2, Backlog: 2, Opens: [2]int{1, 0}, Accepts: [2]int{0, 1}, MaxBytes: 4,
@@ -135,9 +135,113 @@ func c23Scenarios() []scenario {
 	return out
 }
 
+// segmentationScenarios: carrier segmentation as a dimension. The carrier hands
+// bytes to the reading multiplexer in pieces whose boundaries fall at every
+// offset inside a data message's header and just behind it (kind byte | stream
+// identifier | two length bytes | payload: offsets 1..5), for each data message
+// of the history in turn (the others are delivered whole), and additionally
+// the whole history is delivered one byte at a time and three bytes at a time.
+// Histories use payload lengths whose two length bytes differ from the previous
+// message's (1, 300, 2 on one stream; 1, 300, 2, 1 alternating over two
+// streams). B keeps a Read outstanding on every stream, so whatever the
+// receiver makes of a data message is seen immediately; A finally half-closes
+// and B reads to end-of-stream. Same lock-step byte-stream model and (for C24)
+// the same no-teardown oracle as everywhere else.
+func segmentationScenarios() []scenario {
+	type wr struct{ id, n int }
+	type plan struct {
+		name     string
+		preamble []Event
+		ids      []int
+		writes   []wr
+	}
+	plans := []plan{
+		{"one-stream-writes-1-300-2", established, []int{1}, []wr{{1, 1}, {1, 300}, {1, 2}}},
+		{"two-streams-writes-1-300-2-1", twoEstablished, []int{1, 3}, []wr{{1, 1}, {3, 300}, {1, 2}, {3, 1}}},
+	}
+	var out []scenario
+	for _, p := range plans {
+		p := p
+		// mode: target < 0 means "every delivery in pieces of `piece` bytes";
+		// otherwise data message number target is split at offset piece.
+		add := func(label string, target, piece int) {
+			cfg := Config{Name: "segmentation-" + p.name, W: 1024, WriteBuffers: 2, Backlog: 2, Opens: [2]int{len(p.ids), 0}, Accepts: [2]int{0, len(p.ids)},
+				MaxBytes: 1 << 20, LongPattern: true, Writers: [2]bool{true, false}, Readers: [2]bool{false, true}, Closers: [2]bool{true, false}, Kinds: []string{"closeWrite"}}
+			drive := func(w *world, step func(Event) bool) {
+				for _, ev := range p.preamble {
+					if !step(ev) {
+						return
+					}
+				}
+				reads := func() bool {
+					for _, id := range p.ids {
+						b := &w.streams[id].side[1]
+						if len(b.readCalls) == 0 && !b.eof && !step(Event{K: "read", S: 1, ID: id, N: 1024}) {
+							return false
+						}
+					}
+					return true
+				}
+				flush := func(split int) bool {
+					first := true
+					for i := 0; i < 2000 && !w.wires[0].idle(); i++ {
+						ev := Event{K: "deliver", S: 0}
+						if target < 0 {
+							ev = Event{K: "deliverN", S: 0, N: piece}
+						} else if split > 0 && first {
+							ev = Event{K: "deliverN", S: 0, N: split}
+						}
+						first = false
+						if !step(ev) {
+							return false
+						}
+					}
+					for i := 0; i < 16 && !w.wires[1].idle(); i++ {
+						if !step(Event{K: "deliver", S: 1}) {
+							return false
+						}
+					}
+					return true
+				}
+				if !reads() {
+					return
+				}
+				for i, x := range p.writes {
+					split := 0
+					if i == target {
+						split = piece
+					}
+					if !step(Event{K: "write", S: 0, ID: x.id, N: x.n}) || !flush(split) || !reads() {
+						return
+					}
+				}
+				for _, id := range p.ids {
+					if !step(Event{K: "closeWrite", S: 0, ID: id}) || !flush(0) {
+						return
+					}
+				}
+				for i := 0; i < 8; i++ {
+					if !reads() || !flush(0) {
+						return
+					}
+				}
+			}
+			out = append(out, scenario{"segmentation-" + p.name + "-" + label, cfg, drive})
+		}
+		for m := range p.writes {
+			for k := 1; k <= 5; k++ {
+				add(fmt.Sprintf("message-%d-split-at-%d", m, k), m, k)
+			}
+		}
+		add("every-1-byte", -1, 1)
+		add("every-3-bytes", -1, 3)
+	}
+	return out
+}
+
 func TestC23(t *testing.T) {
-	runProperty(t, "C23", c23Configs(), nil, c23Scenarios(),
-		"breadth-first exploration with state deduplication of ALL harness event sequences up to the configured depth over two real multiplexers on a harness-owned carrier inside a synctest bubble; events: open, accept, write(n) n in {0,1,W+1}, read(k) k in {0,1,W+1}, closeWrite, close (both sides), deliver next chunk A>B / B>A (thorough also: next byte, window 3, two streams); one case = one executed history; judged on every Read/Write result and at every quiescent state: byte k read on a stream = byte k the peer wrote on it (values encode stream, direction, offset), nothing read beyond what Write calls reported, io.EOF only after the peer's CloseWrite/Close and with all reported bytes read, reported bytes with nothing in flight are readable, and with nothing in flight no Write stays blocked whose data fits the window the peer has freed by reading (delivery on the still-open direction of a half-closed stream included: configuration with one write buffer and a carrier holding one chunk per direction, so that window increments and close-write wait in the accumulator); non-trivial = at least one byte was read end to end; distinct by final state key (which includes the order of reads / half-closes made while the side had no write buffer)",
+	runProperty(t, "C23", c23Configs(), nil, append(c23Scenarios(), segmentationScenarios()...),
+		"breadth-first exploration with state deduplication of ALL harness event sequences up to the configured depth over two real multiplexers on a harness-owned carrier inside a synctest bubble; events: open, accept, write(n) n in {0,1,W+1}, read(k) k in {0,1,W+1}, closeWrite, close (both sides), deliver next chunk A>B / B>A (thorough also: next byte, window 3, two streams); one case = one executed history; judged on every Read/Write result and at every quiescent state: byte k read on a stream = byte k the peer wrote on it (values encode stream, direction, offset), nothing read beyond what Write calls reported, io.EOF only after the peer's CloseWrite/Close and with all reported bytes read, reported bytes with nothing in flight are readable, and with nothing in flight no Write stays blocked whose data fits the window the peer has freed by reading (delivery on the still-open direction of a half-closed stream included: configuration with one write buffer and a carrier holding one chunk per direction, so that window increments and close-write wait in the accumulator); non-trivial = at least one byte was read end to end; distinct by final state key (which includes the order of reads / half-closes made while the side had no write buffer). In addition 12 fixed large-transfer histories: receive window in {65535, 65536, 262144} x one Write of {65535, 65536, 100000, 200000} bytes whose values are a function of the full offset, then an 18-byte trailer and CloseWrite, reader reading with a 70000-byte buffer to end-of-stream, everything delivered after each call; same byte-stream model",
 		[]string{commonAssume1, commonAssume2, commonAssume3,
 			"branches in which a multiplexer records an internal error are not continued here (that is C24's subject); they are counted in branches_stopped_at_internal_error"})
 }
@@ -249,7 +353,7 @@ func c24Scenarios() []scenario {
 }
 
 func TestC24(t *testing.T) {
-	runProperty(t, "C24", c24Configs(), nil, c24Scenarios(),
+	runProperty(t, "C24", c24Configs(), nil, append(c24Scenarios(), segmentationScenarios()...),
 		"breadth-first exploration with state deduplication of ALL harness event sequences up to the configured depth over two real multiplexers on a harness-owned carrier inside a synctest bubble; events: open, accept, cancel of a pending open/accept, write(n) and read(k) with n,k in {0,1,W+1} (also after close / end-of-stream), closeWrite, close, SetReadDeadline/SetWriteDeadline(clear | 1 s in the past | 1 s in the future), sleep 2 s (virtual), open beyond an accept backlog of 1, deliver next chunk A>B / B>A; oracle at every quiescent state: InternalError()==nil and Closed() not closed on both sides (the harness never closes a multiplexer and never fails the carrier in these runs); non-trivial = the history contains a zero-length operation, a deadline, a cancellation, a rejection or a (half-)close; distinct by final state key. In addition two driver-policy scenarios with heartbeats ENABLED (transmit 1 s, receive limit 4 s, virtual time) on a carrier that holds one chunk per direction and is paced by the harness (50 ms of virtual time and one chunk A>B per round, 240 rounds = 12 s = 3x the limit): sustained back-to-back one-byte writes on two streams (both write buffers of the sender permanently busy) and an idle link (positive control); same oracle",
 		[]string{commonAssume1, commonAssume2, commonAssume3,
 			"the wire message trace is not decoded: the oracle is the receiver's own verdict (InternalError / Closed) as the property states",
@@ -318,7 +422,7 @@ func c25Scripted() []replayCase {
 
 func TestC25(t *testing.T) {
 	runProperty(t, "C25", c25Configs(), c25Scripted(), nil,
-		"breadth-first exploration with state deduplication of ALL harness event sequences up to the configured depth over two real multiplexers on a harness-owned carrier inside a synctest bubble; four configurations: (1) blocked reads/writes x {deadline set in the past, deadline 1 s ahead + 2 s virtual sleep, CloseWrite, Close, peer Close/CloseWrite + delivery, multiplexer Close}; (2) three opens against an accept backlog of 1 with accepts, cancellations and multiplexer Close; (3) two established streams, window 2, writer A / reader B (head-of-line); (4) carrier that holds one chunk per direction and one write buffer with write deadlines; oracle at every quiescent state: no read/write/open/accept is pending whose deadline has passed, whose stream or multiplexer was closed, whose context was cancelled or whose peer closed the stream (close delivered); with nothing in flight no Write is pending whose data fits the peer's window for that stream and at most Backlog opens of one side are pending; after closing both multiplexers every call has returned; non-trivial = at least one call was pending at a quiescent state of the history; distinct by final state key",
+		"breadth-first exploration with state deduplication of ALL harness event sequences up to the configured depth over two real multiplexers on a harness-owned carrier inside a synctest bubble; four configurations: (1) blocked reads/writes x {deadline set in the past, deadline 1 s ahead + 2 s virtual sleep, CloseWrite, Close, peer Close/CloseWrite + delivery, multiplexer Close}; (2) three opens against an accept backlog of 1 with accepts, cancellations and multiplexer Close; (3) two established streams, window 2, writer A / reader B (head-of-line); (4) carrier that holds one chunk per direction and one write buffer with write deadlines; oracle at every quiescent state: no read/write/open/accept is pending whose deadline has passed, whose stream or multiplexer was closed, whose context was cancelled or whose peer closed the stream (close delivered); with nothing in flight no Write is pending whose data fits the peer's window for that stream and at most Backlog opens of one side are pending; in configuration (1) up to two Reads and two Writes may be outstanding per stream side (the second queues behind the first) and EVERY one of them must have returned; after closing both multiplexers every call has returned; non-trivial = at least one call was pending at a quiescent state of the history; distinct by final state key",
 		[]string{commonAssume1, commonAssume2, commonAssume3,
 			"'returns once X' is judged at the first quiescent state after X (virtual time, no wall clock)",
 			"a blocked reader is expected to return also after the peer's CloseWrite (half-close ends the stream for the reader)",
